@@ -102,12 +102,30 @@ def plan(tier, seed):
 PUN_ELEMS = ["TRUE", "1", "FALSE", "0", "'ab'", "//ab//", "2", "'1'", "'TRUE'", "//1//", "[1]", "[TRUE]"]   # host-type puns: True == 1, 'ab' vs //ab//
 
 
-def gen_collections(r):
-    """element lists for S, S2, M (as source strings)"""
-    k = r.random()
-    pool = STR_ELEMS if k < 0.3 else (MIX_ELEMS if k < 0.5 else (PUN_ELEMS if k < 0.62 else (DEC_ELEMS if k < 0.74 else (SET_ELEMS if k < 0.88 else LIST_ELEMS))))
+NUMBOOL_ELEMS = ["TRUE", "1", "FALSE", "0", "2", "-1", "3"]
+STRPAT_ELEMS = ["'ab'", "//ab//", "'1'", "'TRUE'", "//1//", "//TRUE//", "'a'", "//z//"]
+PUN_PAIRS = {"pun-numbool": [("TRUE", "1"), ("FALSE", "0")], "pun-strpat": [("'ab'", "//ab//"), ("'1'", "//1//"), ("'TRUE'", "//TRUE//")],
+             "pun-mixed": [("TRUE", "1"), ("FALSE", "0"), ("'ab'", "//ab//"), ("[1]", "[TRUE]"), ("'1'", "//1//")]}
+POOLS = {"str": STR_ELEMS, "mix": MIX_ELEMS, "dec": DEC_ELEMS, "set": SET_ELEMS, "list": LIST_ELEMS,
+         "pun-numbool": NUMBOOL_ELEMS, "pun-strpat": STRPAT_ELEMS, "pun-mixed": PUN_ELEMS}
+# every kind of pool is used in turn (string-like ones first: those are the ones a hash seed can reorder)
+KIND_CYCLE = ["pun-strpat", "str", "set", "pun-mixed", "list", "pun-numbool", "mix", "dec"]
+
+
+def gen_collections(r, idx=None):
+    """element lists for S, S2, M (as source strings); idx picks the pool kind in turn"""
+    kind = KIND_CYCLE[idx % len(KIND_CYCLE)] if idx is not None else r.choice(KIND_CYCLE)
+    pool = POOLS[kind]
     a = r.sample(pool, r.randint(2, 5))
     b = r.sample(pool, r.randint(2, 4))
+    if kind in PUN_PAIRS:
+        # distinct values whose host payloads are equal, together in one collection
+        for xs in (a, b):
+            if r.random() < 0.8:
+                for e in r.choice(PUN_PAIRS[kind]):
+                    if e not in xs:
+                        xs.append(e)
+                r.shuffle(xs)
     if r.random() < 0.05:
         # collections beyond the size thresholds of any fast path
         big = r.choice(["int", "str", "set", "list"])
@@ -163,8 +181,8 @@ def batch(seed, rounds):
     """the program batch shared by all hash-seed shards (independent of the shard index)"""
     r = core.make_rng(seed, "C12-batch", 0)
     progs = []
-    for _ in range(rounds):
-        col = gen_collections(r)
+    for i in range(rounds):
+        col = gen_collections(r, i)
         for name, tmpl in PATHS:
             progs.append((name, instantiate(tmpl, col)))
     return progs
@@ -190,8 +208,9 @@ def run_shard(spec, ctx):
         ok = shuffle.install()
         ctx.extras["shuffle_installed"] = ok
         R = Runner()
-        for _ in range(spec["rounds"]):
-            col = gen_collections(r)
+        for i in range(spec["rounds"]):
+            col = gen_collections(r, ctx.shard * spec["rounds"] + i)
+            ctx.count("pool_kind_" + KIND_CYCLE[(ctx.shard * spec["rounds"] + i) % len(KIND_CYCLE)])
             for name, tmpl in PATHS:
                 src = instantiate(tmpl, col)
                 shuffle.reseed(0)
@@ -214,8 +233,9 @@ def run_shard(spec, ctx):
         ctx.count("shuffled_dict_iterations", shuffle.STATS["dict_iters"])
     else:
         R = Runner()
-        for _ in range(spec["rounds"]):
-            col = gen_collections(r)
+        for i in range(spec["rounds"]):
+            col = gen_collections(r, ctx.shard * spec["rounds"] + i)
+            ctx.count("pool_kind_" + KIND_CYCLE[(ctx.shard * spec["rounds"] + i) % len(KIND_CYCLE)])
             for name, tmpl in PATHS:
                 base_src = instantiate(tmpl, col)
                 base = R.run(base_src)
